@@ -44,6 +44,7 @@ structure GSt where
   inflight : Option Inflight := none
   lastEnd : Int := 0
   lastEntries : String := ""
+  prevSupp : List (Nat × String) := []   -- what the previous flush of this group withheld, and why
 
 structure St where
   gw : Int := 0
@@ -306,9 +307,9 @@ def step0 (σ : St) (op obs : List String) : St × List Msg :=
         -- the converse: an alert that nothing suppressed at the flush is missing from the notification
         let missing := (fl.firing ++ (if c.sendResolved then fl.resolved else [])).filter fun x => !sentIds.contains x
         let pfWith := if p ≠ .send then [] else missing.foldl (fun acc x =>
-          acc ++ (if σ.inh.any (·.2 == x) then [Msg.propfail "mutes_iff_spec" "not-inhibited-withheld"
+          acc ++ (if gs.prevSupp.contains (x, "inhibited") then [Msg.propfail "mutes_iff_spec" "not-inhibited-withheld"
                     s!"group={g} integration={i} alert={x}: no source of a rule targeting it was firing at the flush (wall={fl.wall}), yet the notification {iSent} omits it"] else [])
-              ++ (if σ.sils.any (·.id == x) then [Msg.propfail "takes_effect_next_flush" "not-silenced-withheld"
+              ++ (if gs.prevSupp.contains (x, "silenced") then [Msg.propfail "takes_effect_next_flush" "not-silenced-withheld"
                     s!"group={g} integration={i} alert={x}: no silence for it was active at the flush (wall={fl.wall}), yet the notification {iSent} omits it"] else [])) []
         let pf3 := pfSupp ++ pfWith ++ (if p ≠ .send then
              [Msg.propfail "notify_only_if_changed_or_repeat" "unjustified" s!"group={g} integration={i} sent={iSent} tick={fl.tick} entry={(fl.before.splitOn ";").getD i "?"}"]
@@ -343,11 +344,11 @@ def step0 (σ : St) (op obs : List String) : St × List Msg :=
           let pf : List Msg :=
             if p = .send ∧ !sent ∧ mode = "ok" ∧ lat < timeoutOf σ ∧ σ.lastModeChange < fl.wall then
               [Msg.propfail "repeat_on_time" "missed" s!"group={g} integration={i} tick={fl.tick} firing={showNatList fl.firing} resolved={showNatList fl.resolved} entry={(fl.before.splitOn ";").getD i "?"}"]
-              ++ (if σ.mute.isSome ∨ σ.active.isSome then [Msg.propfail "route_gate" "open-flush-withheld"
+              ++ (if gs.prevSupp.any (·.2 == "time-muted") then [Msg.propfail "route_gate" "open-flush-withheld"
                     s!"group={g} integration={i}: the flush at tick={fl.tick} is outside the mute interval / inside the active interval and owes a notification, none was sent"] else [])
-              ++ (if (fl.firing ++ fl.resolved).any (fun x => σ.inh.any (·.2 == x)) then [Msg.propfail "mutes_iff_spec" "not-inhibited-withheld"
+              ++ (if (fl.firing ++ fl.resolved).any (fun x => gs.prevSupp.contains (x, "inhibited")) then [Msg.propfail "mutes_iff_spec" "not-inhibited-withheld"
                     s!"group={g} integration={i}: the flush at wall={fl.wall} owes a notification for alerts no firing source inhibits, none was sent"] else [])
-              ++ (if (fl.firing ++ fl.resolved).any (fun x => σ.sils.any (·.id == x)) then [Msg.propfail "takes_effect_next_flush" "not-silenced-withheld"
+              ++ (if (fl.firing ++ fl.resolved).any (fun x => gs.prevSupp.contains (x, "silenced")) then [Msg.propfail "takes_effect_next_flush" "not-silenced-withheld"
                     s!"group={g} integration={i}: the flush at wall={fl.wall} owes a notification for alerts no active silence matches, none was sent"] else [])
             else []
           (msgs ++ pf, okAll && !(p = .send ∧ !sent))) init
@@ -371,7 +372,7 @@ def step0 (σ : St) (op obs : List String) : St × List Msg :=
               then [Msg.tag "end:refire-survived"] else [])
           ++ (if res ≠ "ok" then [Msg.tag "end:failed"] else [])
         let σ2 := if g1.destroyed then { delG σ1 g with gm := (gstep σ1.limit σ1.gm (.destroy g)).1 }
-                  else setG σ1 g { gs with g := g1, inflight := none, lastEnd := wall, lastEntries := ents }
+                  else setG σ1 g { gs with g := g1, inflight := none, lastEnd := wall, lastEntries := ents, prevSupp := fl.supp }
         (σ2, msgs ++ mEnt ++ pfLog ++ mRes ++ pfDeadline ++ tags ++ (if g1.destroyed then [.tag "end:destroyed"] else []))
   | _, _ => (σ, [.diff "parse" "?" (" ".intercalate op)])
 
